@@ -80,7 +80,8 @@ public:
 
   void set_int(const char *value)
   {
-    value_int = atoll(value);
+    // atoll() saturates: 9223372036854775808 and up are 64 bit words too.
+    value_int = value[0] == '-' ? strtoll(value, NULL, 10) : strtoull(value, NULL, 10);
     type = VAR_INT;
   }
 
